@@ -81,6 +81,9 @@ func RunScenario(s Scenario) (*Trace, error) {
 		if err := w.Step(st); err != nil {
 			return w.Trace, err
 		}
+		if ps := w.TakePanics(); len(ps) > 0 {
+			return w.Trace, fmt.Errorf("reconcile panicked: %s", ps[0])
+		}
 	}
 	return w.Trace, nil
 }
